@@ -397,11 +397,17 @@ func (loader *Loader) resolveComponent(doc *T, ref string, path *url.URL, resolv
 				}
 
 			case *Responses:
-				cursor = c.m // m map[string]*ResponseRef
+				if c != nil {
+					cursor = c.m // m map[string]*ResponseRef
+				}
 			case *Callback:
-				cursor = c.m // m map[string]*PathItem
+				if c != nil {
+					cursor = c.m // m map[string]*PathItem
+				}
 			case *Paths:
-				cursor = c.m // m map[string]*PathItem
+				if c != nil {
+					cursor = c.m // m map[string]*PathItem
+				}
 			}
 
 			if !attempted {
